@@ -253,6 +253,11 @@ _TO_THOROUGH = {"c06_parse_inforeply_4_le", "c06_finding_numset_iter_overflow_sn
                 "c06_submsg_datafrag_l40_otn36", "c06_plist_parse_8_be", "c06_data_parse_24_qd", "c06_finding_latent_rproxy_mark_frags_beyond",
                 "c06_frag_step_existing_d8_p16", "c06_datafrag_parse_40_o37", "c06_data_parse_28_d_o25", "c06_submsg_heartbeat_l32_otn29"}
 _TO_QUICK = {"c06_finding_latent_rproxy_mark_frags_zero"}
+# instances whose "decoder accepts" witness is unreachable at that buffer length (found VACUOUS by the first
+# complete thorough run: the length is short of / not aligned with any acceptable encoding, so only Err is possible):
+# dropped from the table rather than weakening the vacuity rule
+_DROP = {"c06_parse_gap_33_le", "c06_parse_acknack_29_le", "c06_parse_nackfrag_33_le", "c06_plist_parse_3_le"}
+_ALL = [_h for _h in _ALL if _h["name"] not in _DROP]
 for _h in _ALL:
     if _h["name"] in _TO_THOROUGH:
         _h["tier"] = "thorough"
